@@ -186,21 +186,64 @@ C14 == \A F \in Fs : LET R == Run(srcs, prog, F) IN
 CatNum(c) == CASE c = "create" -> 1 [] c = "fix" -> 2 [] c = "trim" -> 3 [] c = "update" -> 4
 CatSeq(S) == SetToSortSeq({CatNum(c) : c \in S}, <)
 FsSeq == SetToSeq(Fs)
-OneRun(p, F, imp) ==
-  LET R == SessionE(srcs, p, F, F, IF imp THEN DOMAIN srcs ELSE {}) IN
+OneRunS(ss, p, F, imp) ==
+  LET R == SessionE(ss, p, F, F, IF imp THEN DOMAIN ss ELSE {}) IN
   [F |-> CatSeq(F), imp |-> imp,
    res |-> [t \in DOMAIN p |-> R.tests[t].res],
    failed |-> [t \in DOMAIN p |-> R.tests[t].failed],
    miss |-> [t \in DOMAIN p |-> R.tests[t].miss],
    inc |-> [t \in DOMAIN p |-> R.tests[t].inc],
-   pending |-> [i \in DOMAIN srcs |-> CatSeq(R.pending[i])],
+   pending |-> [i \in DOMAIN ss |-> CatSeq(R.pending[i])],
    srcs |-> R.srcs]
+OneRun(p, F, imp) == OneRunS(srcs, p, F, imp)
+\* a history of sessions: Fseq[k] is approved in session k; each session starts from what the previous one wrote
+ChainFrom(ss, p, Fseq, imp) ==
+  LET st[k \in 0..Len(Fseq)] == IF k = 0 THEN ss ELSE SessionE(st[k-1], p, Fseq[k], Fseq[k], IF imp THEN DOMAIN ss ELSE {}).srcs
+  IN [k \in 1..Len(Fseq) |-> OneRunS(st[k-1], p, Fseq[k], imp)]
+\* C09: every way of approving one pending category per session until nothing is pending
+RECURSIVE Paths(_, _, _)
+Paths(ss, p, fuel) ==
+  LET P == AllPending(Run(ss, p, {})) IN
+  IF P = {} \/ fuel = 0 THEN {<<>>}
+  ELSE UNION {{<<{c}>> \o rest : rest \in Paths(Run(ss, p, {c}).srcs, p, fuel - 1)} : c \in P}
+RECURSIVE AllAtOnce(_, _, _)
+AllAtOnce(ss, p, fuel) ==
+  LET P == AllPending(Run(ss, p, {})) IN
+  IF P = {} \/ fuel = 0 THEN <<>> ELSE <<P>> \o AllAtOnce(Run(ss, p, P).srcs, p, fuel - 1)
+RECURSIVE FinalsP(_, _, _)
+FinalsP(ss, p, fuel) == LET P == AllPending(Run(ss, p, {})) IN
+   IF P = {} \/ fuel = 0 THEN {ss} ELSE UNION {FinalsP(Run(ss, p, {c}).srcs, p, fuel - 1) : c \in P}
+RECURSIVE FinalAllP(_, _, _)
+FinalAllP(ss, p, fuel) == LET P == AllPending(Run(ss, p, {})) IN
+   IF P = {} \/ fuel = 0 THEN ss ELSE FinalAllP(Run(ss, p, P).srcs, p, fuel - 1)
 ProgSeq == SetToSeq(Progs(ops))
 Emit == Mode = "emit" =>
   LET ps == ProgSeq
       sel == {n \in 1..Len(ps) : (n + GroupId) % Stride = Offset % Stride}
       cases == [n \in sel |-> [prog |-> ps[n],
                                runs |-> [f \in 1..Len(FsSeq) |-> OneRun(ps[n], FsSeq[f], (n + f) % 2 = 0)]]]
+  IN JsonSerialize(IOEnv.OUT_DIR \o "/group_" \o ToString(GroupId) \o ".json",
+                   [ops |-> ops, srcs |-> srcs, cases |-> SetToSeq({cases[n] : n \in sel})])
+\* histories of identical sessions (C08): <<F, F>> for every F and <<Cats, {}>>
+EmitChain8 == Mode = "chain8" =>
+  LET ps == ProgSeq
+      sel == {n \in 1..Len(ps) : (n + GroupId) % Stride = Offset % Stride}
+      cases == [n \in sel |-> [prog |-> ps[n],
+                 chains |-> [f \in 1..(Len(FsSeq) + 1) |->
+                     IF f <= Len(FsSeq) THEN ChainFrom(srcs, ps[n], <<FsSeq[f], FsSeq[f]>>, (n + f) % 2 = 0)
+                     ELSE ChainFrom(srcs, ps[n], <<Cats, {}>>, n % 2 = 0)]]]
+  IN JsonSerialize(IOEnv.OUT_DIR \o "/group_" \o ToString(GroupId) \o ".json",
+                   [ops |-> ops, srcs |-> srcs, cases |-> SetToSeq({cases[n] : n \in sel})])
+\* orders of approval (C09): programs with at least two pending categories
+EmitChain9 == Mode = "chain9" =>
+  LET ps == ProgSeq
+      sel == {n \in 1..Len(ps) : (n + GroupId) % Stride = Offset % Stride
+                                   /\ Cardinality(AllPending(Run(srcs, ps[n], {}))) >= 2}
+      cases == [n \in sel |-> [prog |-> ps[n],
+                 confluent |-> FinalsP(srcs, ps[n], Fuel) = {FinalAllP(srcs, ps[n], Fuel)},
+                 final |-> FinalAllP(srcs, ps[n], Fuel),
+                 chains |-> SetToSeq({ChainFrom(srcs, ps[n], path, FALSE) : path \in Paths(srcs, ps[n], Fuel)}),
+                 atonce |-> ChainFrom(srcs, ps[n], AllAtOnce(srcs, ps[n], Fuel), FALSE)]]
   IN JsonSerialize(IOEnv.OUT_DIR \o "/group_" \o ToString(GroupId) \o ".json",
                    [ops |-> ops, srcs |-> srcs, cases |-> SetToSeq({cases[n] : n \in sel})])
 =============================================================================
